@@ -76,6 +76,16 @@ def o_isinstance(self, I, c):
     return ufun(f"isinst!{name}", U(), z3.BoolSort())(self.t)
 
 
+def o_binop(self, I, op, other, refl):
+    """a (op) b on opaque objects: the value-level result of the operands' operator overload - an uninterpreted function of the
+    operator and the two operands (in-place effects of such overloads on their operands are not modelled)."""
+    if not isinstance(other, SOpaque):
+        return NotImplemented
+    a, b = (other, self) if refl else (self, other)
+    return SOpaque(ufun(f"U!binop.{op}", U(), U(), U())(a.t, b.t), "any")
+
+
+SOpaque.binop = o_binop
 SOpaque.isinstance = o_isinstance
 SOpaque.getattr = o_getattr
 SOpaque.setattr = o_setattr
